@@ -62,7 +62,7 @@ theorem blank_head {g : Txt} (hg : Blank g) : ∀ c r, g = c :: r → isBlankC c
 
 theorem IsTail.follow {tail : Txt} (h : IsTail tail) : Follow tail := by
   obtain ⟨g, hg, ht⟩ := h
-  refine ⟨?_, ?_, ?_⟩
+  refine ⟨?_, ?_, ?_, ?_⟩
   · intro c r hc
     rcases ht with ht | ⟨cm, ht⟩
     · left; exact blank_head hg c r (by rw [← ht, hc])
@@ -75,6 +75,10 @@ theorem IsTail.follow {tail : Txt} (h : IsTail tail) : Follow tail := by
     · rw [h0] at hc; simp at hc; right; left; exact hc.1.symm
   · intro r hl
     rcases (IsTail.skip ⟨g, hg, ht⟩) with h0 | ⟨cm, h0⟩ <;> simp [lit, sk_true, h0, dropPrefix] at hl
+  · intro r hr
+    rcases (IsTail.skip ⟨g, hg, ht⟩) with h0 | ⟨cm, h0⟩
+    · rw [h0] at hr; cases hr
+    · rw [h0] at hr; simp at hr; exact ⟨cm, hr.symm⟩
 
 theorem immediate_none_head (g : Txt) (c : Nat) (t : Txt) (hg : Blank g) (hc : isWs c = false)
     (hd : isDigitC c = false) (h : c ≠ 35 ∧ c ≠ 45 ∧ c ≠ 58) (hf : isIdFirstC c = false) :
@@ -190,6 +194,19 @@ theorem GoodOp.any {fst : Bool} {T : Txt} {raw : RawOp} (h : GoodOp false fst T 
   | true => exact h.weaken
   | false => exact h
 
+/-- what the first operand slot needs: the text is read as `raw` there (kinds that may only stand first,
+    like a prefetch operation, have only this) -/
+structure GoodFirst (last : Bool) (T : Txt) (raw : RawOp) : Prop where
+  first : ∀ g rest, Blank g → After last rest →
+    ∃ r', operandFirst (g ++ (T ++ rest)) = some (raw, r') ∧ skipWs r' = skipWs rest
+  head : ∃ c t, T = c :: t ∧ isWs c = false ∧ c ≠ 58 ∧ c ≠ 43
+
+theorem GoodOp.toFirst {last : Bool} {T : Txt} {raw : RawOp} (h : GoodOp last true T raw) : GoodFirst last T raw :=
+  ⟨h.first rfl, h.head⟩
+
+theorem GoodFirst.weaken {T : Txt} {raw : RawOp} (h : GoodFirst false T raw) : GoodFirst true T raw :=
+  ⟨fun g rest hg ha => h.first g rest hg (IsTail.follow ha), h.head⟩
+
 theorem GoodOp.notFirst {last fst : Bool} {T : Txt} {raw : RawOp} (h : GoodOp last fst T raw) :
     GoodOp last false T raw :=
   ⟨h.rest, fun hf => Bool.noConfusion hf, h.noShift, h.head⟩
@@ -223,7 +240,7 @@ theorem follow_restText (xs : List Slot) (tail : Txt) (hx : SlotsOk xs) (ht : Is
       | cons y ys => exact ih hrest
     have hsk : skipWs (restText (x :: xs) tail) = 44 :: (x.g2 ++ (x.text ++ restText xs tail)) := by
       simp only [restText]; rw [skipWs_blank_append _ _ h1, skipWs_cons 44 _ (by decide)]
-    refine ⟨?_, ?_, ?_⟩
+    refine ⟨?_, ?_, ?_, ?_⟩
     · intro c r hc
       simp only [restText] at hc
       cases hg : x.g1 with
@@ -236,6 +253,8 @@ theorem follow_restText (xs : List Slot) (tail : Txt) (hx : SlotsOk xs) (ht : Is
       simp at hl
       rw [← hl]
       exact hgood.noShift x.g2 _ h2 hafter
+    · intro r hr
+      rw [hsk] at hr; simp at hr
 
 /-- what follows the operand in front of `xs` is admissible for it -/
 theorem after_restText (xs : List Slot) (tail : Txt) (hx : SlotsOk xs) (ht : IsTail tail) :
@@ -462,7 +481,7 @@ def firstRaw (first : Option (Txt × Txt × RawOp)) : List RawOp :=
 def FirstOk (first : Option (Txt × Txt × RawOp)) (xs : List Slot) : Prop :=
   match first with
   | none => xs = []
-  | some (g1, T1, raw1) => Blank g1 ∧ g1 ≠ [] ∧ GoodOp xs.isEmpty true T1 raw1 ∧ SlotsOk xs
+  | some (g1, T1, raw1) => Blank g1 ∧ g1 ≠ [] ∧ GoodFirst xs.isEmpty T1 raw1 ∧ SlotsOk xs
 
 theorem prod_eta {α β : Type} (p : α × β) : p = (p.1, p.2) := by cases p; rfl
 
@@ -509,7 +528,7 @@ theorem instrP_line (g0 : Txt) (m : Nat) (ms : Txt) (first : Option (Txt × Txt 
   | some f =>
     obtain ⟨g1, T1, raw1⟩ := f
     obtain ⟨hb, _, hgood, hxs⟩ := hfirst
-    obtain ⟨r1, hr1, hsk1⟩ := hgood.first rfl g1 (restText xs t.text) hb (after_restText xs t.text hxs htail)
+    obtain ⟨r1, hr1, hsk1⟩ := hgood.first g1 (restText xs t.text) hb (after_restText xs t.text hxs htail)
     have hops := restSlots_ops xs t.text 4 hlen hxs htail
     have hc := restSlots_congr 4 r1 (restText xs t.text) hsk1
     have hce := comment_end t ht (restSlots 4 r1).2 (by rw [hc.2, hops.2])
